@@ -8,7 +8,8 @@ import (
 const (
 	nOW     = 4 * 4 * 8 * 9 // orphans × widows × paragraph length × room
 	nPair   = 10 * 10 * 4   // break-after × break-before × nesting variant
-	nTables = nOW + nPair
+	nDeco   = 8 * 4 * 22    // block arrangement × border/padding split × page height
+	nTables = nOW + nPair + nDeco
 )
 
 var breakVals = []string{"", "avoid", "avoid-page", "avoid-column", "column", "page", "left", "right", "recto", "verso"}
@@ -17,8 +18,10 @@ func genCase(r *rand.Rand, i int, tier string) any {
 	switch {
 	case i < nOW:
 		return genOW(i)
-	case i < nTables:
+	case i < nOW+nPair:
 		return genPair(i - nOW)
+	case i < nTables:
+		return genDeco(i - nOW - nPair)
 	}
 	return genRandom(r)
 }
@@ -70,6 +73,89 @@ func genPair(j int) In {
 	}
 	in.buildDoc(noLegacy)
 	return in
+}
+
+// genDeco: [20px block][X][20px block] where X carries vertical padding and borders, on pages whose
+// content height sweeps 40..124px in steps of 4, so that the page bottom falls on every 4px of X:
+// before it, in its top decoration, between each pair of its children or lines, in its bottom
+// decoration, after it.  X is, by arrangement:
+//
+//	0 box of three 20px blocks, bottom decoration      4 box of three 20px blocks, top decoration
+//	1 box of three one-line paragraphs, bottom         5 paragraph of three lines, top
+//	2 box of one three-line paragraph, bottom          6 box (top and bottom) of three paragraphs that have a bottom decoration too
+//	3 paragraph of three lines, bottom                 7 fixed-height block of 60px, top and bottom
+//
+// and the decoration is split between border and padding as (8,0), (0,8), (4,4), (4,8).
+func genDeco(j int) In {
+	split := [][2]int{{8, 0}, {0, 8}, {4, 4}, {4, 8}}[j%4]
+	arr := (j / 4) % 8
+	H := 40 + 4*(j/32)
+	in := In{Kind: "deco-table", FS: 10}
+	in.Rules = []Rule{{Origin: "author", Decls: []Decl{{P: "size", V: []int{200, H + 40}}, {P: "margin", V: []int{20}}, {P: "mbox", V: []int{0}}}}}
+	leaf := func(id string, h int) Item { return Item{Kind: "leaf", ID: id, H: h} }
+	para := func(id string, n int) Item { return Item{Kind: "para", ID: id, N: n, LH: 20, Orph: 1, Wid: 1} }
+	top := func(it *Item) { it.BorT, it.PadT = split[0], split[1] }
+	bot := func(it *Item) { it.BorB, it.PadB = split[0], split[1] }
+	var x Item
+	switch arr {
+	case 0, 4:
+		x = Item{Kind: "box", ID: "u1", Kids: []Item{leaf("u2", 20), leaf("u3", 20), leaf("u4", 20)}}
+	case 1, 6:
+		x = Item{Kind: "box", ID: "u1", Kids: []Item{para("u2", 1), para("u3", 1), para("u4", 1)}}
+	case 2:
+		x = Item{Kind: "box", ID: "u1", Kids: []Item{para("u2", 3)}}
+	case 3, 5:
+		x = para("u1", 3)
+	case 7:
+		x = leaf("u1", 60)
+	}
+	switch arr {
+	case 0, 1, 2, 3:
+		bot(&x)
+	case 4, 5:
+		top(&x)
+	case 6:
+		top(&x)
+		bot(&x)
+		for k := range x.Kids {
+			x.Kids[k].BorB = 4
+		}
+	case 7:
+		top(&x)
+		bot(&x)
+	}
+	x.Sp = (j / 32) % 2
+	in.Items = []Item{leaf("u0", 20), x, leaf("u9", 20)}
+	in.buildDoc(noLegacy)
+	return in
+}
+
+// genDecoration gives a block vertical padding and borders on the 4px lattice of the heights.
+func genDecoration(r *rand.Rand, it *Item, scale int) {
+	v := func() int { return 4 * (1 + r.Intn(3)) * scale }
+	switch r.Intn(4) {
+	case 0: // bottom only
+		if chance(r, 0.7) {
+			it.BorB = v()
+		}
+		if it.BorB == 0 || chance(r, 0.4) {
+			it.PadB = v()
+		}
+	case 1: // top only
+		if chance(r, 0.6) {
+			it.BorT = v()
+		}
+		if it.BorT == 0 || chance(r, 0.4) {
+			it.PadT = v()
+		}
+	default:
+		for _, f := range []*int{&it.BorT, &it.PadT, &it.PadB, &it.BorB} {
+			if chance(r, 0.6) {
+				*f = v()
+			}
+		}
+	}
+	it.Sp = r.Intn(2)
 }
 
 func pick[T any](r *rand.Rand, xs []T) T { return xs[r.Intn(len(xs))] }
@@ -306,6 +392,24 @@ func genRandom(r *rand.Rand) In {
 	}
 	if first.Kind == "box" && isSideValue(first.Kids[0].BB) {
 		first.Kids[0].BB = "page"
+	}
+	// vertical padding and borders (drawn last: the flows above are the same with and without)
+	if chance(r, 0.35) {
+		for k := range in.Items {
+			it := &in.Items[k]
+			if it.Kind == "box" {
+				if chance(r, 0.7) {
+					genDecoration(r, it, p.scale)
+				}
+				for q := range it.Kids {
+					if chance(r, 0.25) {
+						genDecoration(r, &it.Kids[q], p.scale)
+					}
+				}
+			} else if chance(r, 0.3) {
+				genDecoration(r, it, p.scale)
+			}
+		}
 	}
 	in.buildDoc(func() bool { return chance(r, p.legacy) })
 	return in
